@@ -108,8 +108,33 @@ def terminal_vs_global_gc(rng, as_objective=False):
     return d
 
 
+def frozen_inside_codon_vs_objective(rng):
+    """a frozen region that ends (or starts) inside a codon of a coding region whose synonyms differ at the frozen
+    nucleotide, and an objective that would like another synonym: the two restrictions must be merged, not overwritten"""
+    six = {"S": ["TCA", "TCC", "TCG", "TCT", "AGC", "AGT"], "L": ["CTA", "CTC", "CTG", "CTT", "TTA", "TTG"],
+           "R": ["CGA", "CGC", "CGG", "CGT", "AGA", "AGG"]}
+    m = rng.randint(3, 6)
+    cods = [rng.choice(six[rng.choice("SLR")]) for _ in range(m)]
+    seq = "".join(cods)
+    j = rng.randint(0, m - 1)
+    if rng.random() < 0.5:
+        keep = [0, 3 * j + rng.choice([1, 2]), 1]
+    else:
+        keep = [3 * j + rng.choice([1, 2]), 3 * m, 1]
+    cons = [dict(kind="cds", location=[0, 3 * m, 1], table="Standard", start_codon=None, translation=None),
+            dict(kind="keep", location=keep)]
+    rng.shuffle(cons)
+    obj = rng.choice([dict(kind="gc_obj", target=rng.choice([0.05, 0.95]), window=None, boost=1, location=None),
+                      dict(kind="change_obj", location=None, amount_percent=None, boost=1),
+                      dict(kind="cai", location=[0, 3 * m, 1], table_seed=rng.randint(0, 10 ** 6), boost=1)])
+    return dict(sequence=seq, constraints=cons, objectives=[obj], settings=problems.rand_settings(rng), np_seed=rng.randint(0, 10 ** 6))
+
+
 def gen_cases(rng, n):
     for i in range(n):
+        if i % 10 == 9:
+            yield dict(desc=frozen_inside_codon_vs_objective(rng), op="optimize", pre_ops=("resolve",))
+            continue
         if i % 10 == 1:
             yield dict(desc=terminal_vs_global_gc(rng), op="optimize", pre_ops=("resolve",))
             continue
@@ -166,10 +191,10 @@ def correspondence(ctx):
 def search(ctx, budget, hints):
     out = []
     n = oracle(getattr(ctx, "_results", []), out)
-    if budget > 1 or n == 0:
-        rng = vlib.Rng(ctx.seed + 202)
-        more, _ = solverprops.run_cases(gen_cases(rng, 300 * budget))
-        n += oracle(more, out)
+    # an independent second stream of problems for the oracle alone (no replay): detection must not hinge on one stream
+    rng = vlib.Rng(ctx.seed + 202)
+    more, _ = solverprops.run_cases(gen_cases(rng, (150 if budget == 1 else 300) * budget))
+    n += oracle(more, out)
     cex, hist = solverprops.shrink_best(out)
     return dict(counterexamples=cex, evaluations=n, hist=hist,
                 samples=[dict(oracle="all_constraints_pass(autopass=False) before/after optimize on the real object")])
